@@ -105,12 +105,17 @@ theorem C19_ply_rows_disjoint (t k t' k' : Nat) (h : plyVertexRow t k = plyVerte
 theorem C19_text_roundtrip (ls : List (List Char)) (h : ∀ l ∈ ls, '\n' ∉ l) :
     readLines (writeLines ls) = ls := by
   unfold readLines
+  rw [if_pos (by decide : readTextSplitter = "readline")]
   rw [readLinesRaw_writeLines ls h, List.map_map]
   calc ls.map (rstripBy readStripPred ∘ fun l => l ++ ['\n']) = ls.map id := by
         apply List.map_congr_left
         intro l hl
         exact rstrip_line l (h l hl)
     _ = ls := List.map_id ls
+
+/-- why the splitter is part of the regenerated model: a reader built on `str.splitlines()` cuts the single line `a\x0cb` in two -/
+theorem C19_splitlines_would_cut_at_form_feed :
+    splitOnBreaks isUnicodeLineBreak false (writeLines [['a', Char.ofNat 0x0c, 'b']]) [] = [['a'], ['b']] := by decide
 
 /-- the line format of `write_to_text_file` is the one `writeLines` models -/
 theorem C19_text_line_format : writeTextLineFormat = "{}\n" := by decide
